@@ -505,7 +505,7 @@ Section C13.
   Proof.
     intros Hw Hfs Eo Hp Hs HL Hm.
     destruct (top o sroot Hsrc Hlc (or_intror Hw) fs src dst Hfs) as (sdof & HT). rewrite Eo in HT.
-    destruct HT as (st' & E1 & I & S & _ & _ & MT & (cr & Hg) & _).
+    destruct HT as (st' & E1 & I & S & _ & MT & (cr & Hg) & _).
     exists st'. split; auto.
     destruct (inv_init o fs Hfs) as (_ & Hroot & _).
     destruct (overlay_all_single o sroot Hsrc _ src dst r Hw Hroot Eo)
